@@ -3,12 +3,12 @@ package verifh
 import (
 	"bufio"
 	"bytes"
+	"compress/gzip"
+	"compress/zlib"
 	"encoding/json"
 	"errors"
 	"fmt"
 	"io"
-	"compress/gzip"
-	"compress/zlib"
 	"net"
 	"net/http"
 	"net/url"
@@ -985,7 +985,6 @@ func TestC19_HexFields(t *testing.T) {
 	c19Hex.rec().Exhaustive()
 }
 
-
 // ---------------------------------------------------------------------------
 // Parameters the harness's request model does not know. A dictionary is taken from the service's own source (string
 // literals handed to query / post argument accessors, JSON field tags): every such name is sent as a query parameter of
@@ -1171,7 +1170,6 @@ func TestC19_DiscoveredParameters(t *testing.T) {
 	}
 	c19Param.rec().Exhaustive()
 }
-
 
 // ---------------------------------------------------------------------------
 // Paths near what the router knows. The router's own path literals are the dictionary: each literal, cut short, extended by a
